@@ -125,8 +125,13 @@ def origin(annotation: tp.Any) -> tp.Any:
     if not isbuiltintype(actual):
         actual = _check_generics(actual)
 
-    # A class which merely defines `__call__` is still that class.
-    if iscallable(actual) and (actual is abc_Callable or not inspect.isclass(actual)):
+    # A class which merely defines `__call__` is still that class
+    #   (`type[...]` and metaclasses denote classes, which are callables).
+    if iscallable(actual) and (
+        actual is abc_Callable
+        or not inspect.isclass(actual)
+        or issubclass(actual, type)
+    ):
         actual = tp.Callable
 
     return actual
